@@ -11,9 +11,18 @@ Theorem gen_swap D h fs m i j : rel D h fs m -> incl (arr m) D ->
 Proof.
   intros R S Hi Hj. pose proof Hi as Hi'. pose proof Hj as Hj'.
   apply (proj1 (in_range_iff _ _ _ _ _ R)) in Hi. apply (proj1 (in_range_iff _ _ _ _ _ R)) in Hj.
+  rel_facts R. unfold f_len in L.
   unfold Gen.futures_Swap. obj_run. obj_done.
   eapply rel_ext; [eassumption|].
-  unfold f_swap. rewrite Hi', Hj'. cbn [andb]. cbv zeta. apply meq_refl.
+  unfold f_swap. rewrite Hi', Hj'. cbn [andb]. cbv zeta.
+  (* the same final state whatever the order of the four writes: normalise the
+     reads [a'[i]], [a'[j]] of the swapped slice *)
+  unfold m_idx, m_slot; cbn [arr hs bad].
+  destruct (Z.eq_dec i j) as [->|Hij];
+    rewrite ?aget_aset_same by (rewrite ?aset_length; lia);
+    rewrite ?(aget_aset_other _ j i) by lia;
+    rewrite ?aget_aset_same by (rewrite ?aset_length; lia);
+    apply meq_refl.
 Qed.
 
 Theorem gen_swap_panic D h fs m i j : rel D h fs m -> incl (arr m) D ->
